@@ -3,6 +3,7 @@
 package main
 
 import (
+	"bytes"
 	"encoding/json"
 	"fmt"
 	"net"
@@ -66,6 +67,7 @@ type respPlan struct {
 	toTag   string
 	expires int  // -1 none
 	b2b     bool // written right behind the previous response: both are in the proxy's socket queue, in order, at once
+	bodyLen int // > 0: the answer carries a body of this many bytes
 }
 
 func newDlgWorld(w *World, p *Plan) *dlgWorld {
@@ -235,6 +237,10 @@ func buildResponse(req *sipwire.Msg, rp respPlan, reqID string) []byte {
 	b.Add("X-Sim-Id", fmt.Sprintf("%s.r%d", reqID, rp.status))
 	if rp.expires >= 0 {
 		b.Add("Expires", strconv.Itoa(rp.expires))
+	}
+	if rp.bodyLen > 0 {
+		b.Add("Content-Type", "application/octet-stream")
+		b.Body = bytes.Repeat([]byte("0123456789abcdef"), rp.bodyLen/16+1)[:rp.bodyLen]
 	}
 	return b.Bytes()
 }
